@@ -469,7 +469,10 @@ def replay_report(mm, gname, c, goal):
     n = len(m.pulses)
     m.current = np.array([complex(x) for x in c['I']])
     sp = [1, n - 1]
-    srcs = [mm.Excitation(complex(v)) for v in c['V']]
+    Vc = [complex(v) for v in c['V']]
+    if goal.startswith('source listing') and all(abs(v.imag) < 1e-12 and v.real >= 0 for v in Vc):
+        Vc = [(-0.5 - 0.5j) * (abs(v) or 1.0) for v in Vc]          # the model left the phases at 0: look at a generic phase as well
+    srcs = [mm.Excitation(v) for v in Vc]
     for s_, k in zip(srcs, sp):
         m.register_source(s_, k)
     ld = mm.Impedance_Load(complex(c['ZL']))
